@@ -67,6 +67,7 @@ type Contract struct {
 	Loops    map[int]*LoopSpec
 	Inline   bool
 	NoPanicCheck bool
+	UsesCount bool // the contract speaks about counttrue(...): the counting theory for []bool is loaded
 	Safety   bool // generate K1 obligations (index, nil, assert, slice, panic, div0)
 	AllowPanics []AllowPanic
 	Pure     bool
@@ -411,6 +412,9 @@ func (cs *ContractSet) LoadFile(file string) error {
 				continue
 			}
 			curFrame = nil
+		}
+		if cur != nil && strings.Contains(rest, "counttrue(") {
+			cur.UsesCount = true
 		}
 		switch word {
 		case "spec", "ghost":
